@@ -19,6 +19,8 @@ class Scalar (α : Type) extends Add α, Sub α, Mul α, Div α, Neg α, LT α, 
   decLe : DecidableRel (α := α) (· ≤ ·)
   /-- the test `x == 0.0` of the code -/
   isZero : α → Bool
+  /-- `np.isnan(x)`; false for exact number types -/
+  isNaN : α → Bool
 
 -- the parent projections and the literal instance get low priority: at a concrete type that
 -- already has its own arithmetic (Float, Rat, ℝ) elaboration prefers the native instances;
@@ -70,6 +72,7 @@ instance : Scalar Float where
   decLt := fun a b => Float.decLt a b
   decLe := fun a b => Float.decLe a b
   isZero := fun a => a == 0.0
+  isNaN := fun a => a.isNaN
 
 instance : Transc Float where
   sqrt := Float.sqrt
@@ -81,6 +84,7 @@ instance : Scalar Rat where
   decLt := fun a b => inferInstanceAs (Decidable (a < b))
   decLe := fun a b => inferInstanceAs (Decidable (a ≤ b))
   isZero := fun a => a == 0
+  isNaN := fun _ => false
 
 /-- the elementary functions overloaded on observables -/
 class Elem (α : Type) extends Transc α where
